@@ -1,4 +1,4 @@
-from . import rules_c02, rules_geom, inputs
+from . import rules_c02, rules_geom, rules_text, inputs
 from .check_c01 import QUICK_SQUARES
 
 
@@ -24,10 +24,13 @@ def run(ctx, prog, facts, tier):
     rules_c02.check_move_footprint(ctx, prog, I, mvs)
     rules_c02.check_capture_footprint(ctx, prog, I)
     rules_c02.check_take_action_composition(ctx, prog, I, mvs[::4])
+    # base case of the invariant for positions that come from text
+    rules_text.check_parsed_board_consistent(ctx, prog, 'C10', full=(tier != 'quick'))
     ctx.assumptions += [
         'NOT decided: per-side piece-count bounds over whole games; layout arithmetic of the printed diagram',
         'invariant preservation (types disjoint, all = union, p1 <= all) follows from the uniform update of all 8 boards '
-        '(checked) by induction over applied actions (argument, not mechanised)']
+        '(checked) by induction over applied actions (argument, not mechanised); base cases: the empty initial board, and parsed '
+        'boards (C10.pb: owner bit only with exactly one type bit of the same square)']
     return ('Who-may-write analysis over all MIR assignment / aggregate sites of PieceBoardState, bit-level interpretation of '
             'PieceBoard::new and the accessors, uniform 8-board update and trap removal footprints.',
             ['factgen MIR export', 'std summaries'])
